@@ -1872,29 +1872,33 @@ func AddDeleteAdd(c *fluent.GRIBIClient, wantACK fluent.ProgrammingResult, t tes
 	res := DoModifyOps(c, t, ops, wantACK, false)
 	validateBaseTopologyEntries(res, wantACK, t)
 
+	// The base topology takes operations 1-4, the add, delete and re-add of
+	// 2.0.0.0/8 are operations 5-7. The two adds differ only in their ID, so it
+	// must be compared - otherwise the acknowledgement of the first add would
+	// also satisfy the check for the second.
 	chk.HasResult(t, res,
 		fluent.OperationResult().
+			WithOperationID(5).
 			WithIPv4Operation("2.0.0.0/8").
 			WithOperationType(constants.Add).
 			WithProgrammingResult(wantACK).
-			AsResult(),
-		chk.IgnoreOperationID())
+			AsResult())
 
 	chk.HasResult(t, res,
 		fluent.OperationResult().
+			WithOperationID(6).
 			WithIPv4Operation("2.0.0.0/8").
 			WithOperationType(constants.Delete).
 			WithProgrammingResult(wantACK).
-			AsResult(),
-		chk.IgnoreOperationID())
+			AsResult())
 
 	chk.HasResult(t, res,
 		fluent.OperationResult().
+			WithOperationID(7).
 			WithIPv4Operation("2.0.0.0/8").
 			WithOperationType(constants.Add).
 			WithProgrammingResult(wantACK).
-			AsResult(),
-		chk.IgnoreOperationID())
+			AsResult())
 }
 
 // AddIPv6Entry adds a fully referenced IPv4Entry and checks whether the specified ACK
